@@ -94,7 +94,7 @@ REFS = {
 }
 
 
-def build(ctx, tier="quick"):
+def build(ctx, tier="quick", judge=True):
     lm = ctx.lexer
     C = classes(ctx)
     P, N = punct(lm), numbers(lm)
@@ -203,7 +203,7 @@ def build(ctx, tier="quick"):
             s.edge(y, P[")"], Tag("act:INDEX", False), fin)
             y1 = s.edge(y, order, Tag("act:INDEX", False, "ord2"))
             s.edge(y1, P[")"], Tag("act:INDEX", False), fin)
-    return s, AlterOracle(ctx, s, C)
+    return s, (AlterOracle(ctx, s, C) if judge else None)
 
 
 def _refcols(s, e, kind, P, C):
@@ -244,6 +244,8 @@ class AlterOracle:
         items = self.pending
         self.pending = []
         n = min(16, os.cpu_count() or 2, max(1, len(items) // 4))
+        if mp.current_process().daemon:
+            n = 1               # already inside a worker of the fragment pool
         _JOB = (self, ex, items)
         if n <= 1:
             results = [_work(i) for i in range(len(items))]
